@@ -202,7 +202,7 @@ def ambient_env_vars():
     global _ambient
     if _ambient is None:
         import re
-        names = set()
+        names, idents, texts = set(), set(), []
         for root, dirs, files in os.walk(REPO):
             dirs[:] = [d for d in dirs if d not in (".git", "_seed")]
             for f in files:
@@ -211,7 +211,13 @@ def ambient_env_vars():
                         txt = open(os.path.join(root, f), errors="replace").read()
                     except OSError:
                         continue
+                    texts.append(txt)
                     names.update(re.findall(r'os\.(?:Getenv|LookupEnv)\(\s*"([A-Za-z_][A-Za-z0-9_]*)"', txt))
+                    # the name given through a constant or variable (possibly of another package)
+                    idents.update(re.findall(r'os\.(?:Getenv|LookupEnv)\(\s*(?:[A-Za-z_][A-Za-z0-9_]*\.)?([A-Za-z_][A-Za-z0-9_]*)\s*\)', txt))
+        for ident in idents:
+            for txt in texts:
+                names.update(re.findall(r'\b%s\b\s*(?:string\s*)?=\s*"([A-Za-z_][A-Za-z0-9_]*)"' % re.escape(ident), txt))
         _ambient = sorted(names - PINNED_ENV_READS)
     return _ambient
 
